@@ -204,6 +204,16 @@ def _decide(args):
         total += sec6
         if st6 == 'unsat':
             return Verdict(ob, 'unsat', 'z3-4.8.12', total)
+    if z3.is_false(ob.goal):
+        # "this path is infeasible": only the path condition matters - one more attempt on the path condition and the lemma
+        # instances alone, then give up (the long ladder below is for goals with content)
+        sp = path.replace('.smt2', '.slim3.smt2')
+        if os.path.exists(sp):
+            st3, sec3, _ = _run_cli([Z3_CLI, '-T:%d' % max(5, timeout_s // 2)], sp, max(5, timeout_s // 2))
+            total += sec3
+            if st3 == 'unsat':
+                return Verdict(ob, 'unsat', 'z3-5.1/relevant-hyps-3', total)
+        return Verdict(ob, 'unknown', 'z3-5.1', total, (detail or 'incomplete').strip())
     if timeout_s > first:
         st, sec, detail = _run_cli([Z3_CLI, '-T:%d' % timeout_s], path, timeout_s)
         total += sec
